@@ -464,7 +464,7 @@ func c14R3(c *Ctx) {
 			if !ok || !precedes(st, sc[0].(ssa.Instruction)) {
 				return
 			}
-			if fa, ok := st.Addr.(*ssa.FieldAddr); ok && fieldName(fa) == "Binary" {
+			if fa, ok := st.Addr.(*ssa.FieldAddr); ok && fieldName(fa) == "Binary" && !intoLocalCopy(fa) {
 				if b, isC := constBool(st.Val); isC && !b {
 					for _, fc := range factsAt(st.Block()) {
 						if !fc.Pol && isFieldLoad("SupportBinary")(fc.V) {
@@ -486,7 +486,7 @@ func c14R3(c *Ctx) {
 						return false
 					}
 					fa, ok := st.Addr.(*ssa.FieldAddr)
-					if !ok || fieldName(fa) != "Binary" {
+					if !ok || fieldName(fa) != "Binary" || intoLocalCopy(fa) {
 						return false
 					}
 					b, isC := constBool(st.Val)
@@ -1261,4 +1261,23 @@ func c14R8(c *Ctx) {
 		}
 		c.check(good, key, c.ipos(call), "a failed step ends the handshake: no later step runs and it is not marked confirmed", "after this step failed the relay can still run a later step or mark the handshake confirmed")
 	}
+}
+
+// intoLocalCopy: the field written belongs to a struct value that lives in a local variable of the function (a
+// by-value parameter or receiver, a copy) — the write does not reach the object the caller holds.
+func intoLocalCopy(fa *ssa.FieldAddr) bool {
+	var x ssa.Value = fa
+	for {
+		f, ok := x.(*ssa.FieldAddr)
+		if !ok {
+			break
+		}
+		x = f.X
+	}
+	a, ok := x.(*ssa.Alloc)
+	if !ok {
+		return false
+	}
+	_, isStruct := a.Type().Underlying().(*types.Pointer).Elem().Underlying().(*types.Struct)
+	return isStruct
 }
